@@ -40,7 +40,6 @@ func TestMain(m *testing.M) {
 
 const prop = "C10"
 
-
 // Signatures of the defects already confirmed by probes (DESIGN.md §2.4) and found again by
 // this check. Each names one root cause / failing shape.
 const (
@@ -75,13 +74,16 @@ type Acct struct {
 }
 
 type EVMCase struct {
-	Accounts []Acct   `json:"accounts"`
-	Sender   h.Hex    `json:"sender"`
-	To       h.Hex    `json:"to,omitempty"` // empty: contract creation, Data is the init code
-	Data     h.Hex    `json:"data,omitempty"`
-	Value    h.Hex    `json:"value,omitempty"`
-	Number   uint64   `json:"number"`
-	Time     uint64   `json:"time"`
+	Accounts []Acct `json:"accounts"`
+	Sender   h.Hex  `json:"sender"`
+	To       h.Hex  `json:"to,omitempty"` // empty: contract creation, Data is the init code
+	Data     h.Hex  `json:"data,omitempty"`
+	Value    h.Hex  `json:"value,omitempty"`
+	Number   uint64 `json:"number"`
+	Time     uint64 `json:"time"`
+	// Again: the same message is sent this many more times, each as a transaction of its own
+	// (new EVM, Finalise(true) in between) over the state the previous one left
+	Again    int      `json:"again,omitempty"`
 	Excluded []string `json:"excluded,omitempty"` // shapes the generator avoided (open known findings)
 	Mutated  bool     `json:"mutated,omitempty"`
 }
@@ -138,19 +140,22 @@ type tcore struct {
 	// a contract created in this transaction created again / an address was created twice: both
 	// depend on the nonce a fresh contract starts with (S16 shape)
 	createByCreated, recreate, hashOfCreated bool
-	writes       bool
-	nested       bool
-	creates      bool
-	sdAddrs      map[string]bool
-	createdAddrs []string
+	writes                                   bool
+	nested                                   bool
+	creates                                  bool
+	sdAddrs                                  map[string]bool
+	createdAddrs                             []string
 
 	// measurement of the account-inspection and jump classes (in-tree side only)
-	preEmpty   map[string]bool  // accounts that are empty in the pre-state
-	touched    map[string]uint8 // address -> mechanisms that reached it in this transaction
-	inspects   map[string]bool  // "<op>:<existence state>"
-	jumps      map[string]bool  // "<code kind>:<destination kind>"
-	initJumped map[uint64]bool  // distinct hash-less init codes (CREATE / creation tx) that took a jump
+	preEmpty                 map[string]bool  // accounts that are empty in the pre-state
+	touched                  map[string]uint8 // address -> mechanisms that reached it in this transaction
+	inspects                 map[string]bool  // "<op>:<existence state>"
+	jumps                    map[string]bool  // "<code kind>:<destination kind>"
+	initJumped               map[uint64]bool  // distinct hash-less init codes (CREATE / creation tx) that took a jump
 	callFresh, callFreshCode bool
+	txs                      int             // transactions started
+	createdBefore            int             // createdAddrs[:createdBefore] were created by earlier transactions of the case
+	destroyed                map[string]bool // self-destructed in an earlier transaction of the case
 }
 
 const (
@@ -167,8 +172,30 @@ const maxTrace = 3000
 
 var addrMask = new(big.Int).Sub(new(big.Int).Lsh(big.NewInt(1), 160), big.NewInt(1))
 
+func join(a, b string) string {
+	if a == "" {
+		return b
+	}
+	return a + "+" + b
+}
+
+func txTag(i int) string {
+	if i == 0 {
+		return ""
+	}
+	return fmt.Sprintf("tx%d:", i+1)
+}
+
+// newTx: a transaction boundary (the case may send its message more than once).
+func (c *tcore) newTx() {
+	c.txs++
+	c.createdBefore = len(c.createdAddrs)
+	c.touched = map[string]uint8{}
+	c.staticFrom = 0
+}
+
 func newCore() *tcore {
-	return &tcore{sdAddrs: map[string]bool{}, touched: map[string]uint8{}, inspects: map[string]bool{}, jumps: map[string]bool{}, initJumped: map[uint64]bool{}}
+	return &tcore{destroyed: map[string]bool{}, sdAddrs: map[string]bool{}, touched: map[string]uint8{}, inspects: map[string]bool{}, jumps: map[string]bool{}, initJumped: map[uint64]bool{}}
 }
 
 type stepInfo struct {
@@ -205,6 +232,9 @@ func touchNames(m uint8) string {
 			p = append(p, n)
 		}
 	}
+	if len(p) > 1 {
+		return "several-touches"
+	}
 	return strings.Join(p, "+")
 }
 
@@ -214,6 +244,12 @@ func (c *tcore) inspect(s stepInfo) {
 	a := addrHex(s.back(0))
 	v := s.acct(a)
 	created := isCreatedIn(a, c)
+	earlier := ""
+	for _, prev := range c.createdAddrs[:c.createdBefore] {
+		if prev == a {
+			earlier = "-in-earlier-tx"
+		}
+	}
 	pre := strings.HasPrefix(a, "00000000000000000000000000000000000000")
 	var st string
 	switch {
@@ -221,12 +257,14 @@ func (c *tcore) inspect(s stepInfo) {
 		st = "self-being-created"
 	case a == s.self():
 		st = "self"
+	case c.destroyed[a] && !v.code:
+		st = "selfdestructed-in-earlier-tx"
 	case created && v.suicided:
-		st = "created-selfdestructed"
+		st = "created" + earlier + "-selfdestructed"
 	case created && v.code:
-		st = "created-with-code"
+		st = "created" + earlier + "-with-code"
 	case created && v.exist:
-		st = "created-no-code"
+		st = "created" + earlier + "-no-code"
 	case created:
 		st = "creation-undone-or-pending"
 	case v.suicided:
@@ -352,6 +390,9 @@ func (c *tcore) step(s stepInfo) {
 		}
 		if s.op == 0xff {
 			c.sdAddrs[s.self()] = true
+			if s.acct != nil {
+				c.touched[addrHex(s.back(0))] |= tBenef
+			}
 		}
 	case s.op == 0xf1 || s.op == 0xf2 || s.op == 0xf4 || s.op == 0xfa:
 		c.nested = true
@@ -360,6 +401,23 @@ func (c *tcore) step(s stepInfo) {
 			c.lowCallGas = true
 		}
 		to := s.back(1)
+		if s.acct != nil {
+			a := addrHex(to)
+			switch {
+			case s.op == 0xfa:
+				c.touched[a] |= tStatic
+			case s.op == 0xf1 && s.back(2).Sign() == 0:
+				c.touched[a] |= tCall0
+			case s.op == 0xf1:
+				c.touched[a] |= tCallV
+			}
+			if isCreatedIn(a, c) {
+				c.callFresh = true
+				if s.acct(a).code {
+					c.callFreshCode = true
+				}
+			}
+		}
 		inAt := 3
 		if s.op == 0xf4 || s.op == 0xfa {
 			inAt = 2
@@ -613,7 +671,7 @@ func runCase(leg string) func(c EVMCase, x *h.Ctx) {
 				detail = fmt.Sprintf("as deployed (MainnetChainConfig, block %d: pre-EIP-158 rules) a contract created in this transaction starts with nonce 0 and then created again / its address was created a second time / its EXTCODEHASH was taken: ", c.Number) + detail
 			case it.tr.createLowGas:
 				sig = sigS15
-				detail = "a CREATE/CREATE2 executed in a frame reached by a CALL-family instruction (callee contract.Gas is 0 because baseGas* never set callGasTemp, the code-deposit charge is taken from it): " + detail
+				detail = "a CREATE/CREATE2 executed in a frame whose contract.Gas is (next to) nothing, while the code-deposit charge is the one cost still taken from contract.Gas: the frame was reached by a CALL-family instruction (baseGas* never set callGasTemp) or an earlier failed creation burnt the gas handed to it (all of it as deployed, where the 63/64 rule is off): " + detail
 			case leg == "deployed" && it.tr.staticWrite:
 				sig = sigS16Static
 				detail = fmt.Sprintf("as deployed (MainnetChainConfig, block %d: pre-Byzantium rules) a state-modifying instruction executed inside a STATICCALL: ", c.Number) + detail
@@ -627,6 +685,9 @@ func runCase(leg string) func(c EVMCase, x *h.Ctx) {
 		}
 		// labels and non-triviality
 		x.Label("class:" + it.class)
+		if c.Again > 0 {
+			x.Labelf("txs:%d", it.tr.txs)
+		}
 		x.Labelf("depth:%s", bucket(it.tr.maxDepth))
 		x.Labelf("steps:%s", bucket(it.tr.steps))
 		labelOps(x, it.tr)
